@@ -208,7 +208,7 @@ theorem remove_sat {s : St K V Q} {l : List (K × V)} (hr : Rep s.r l) (pr : Pro
       refine Sat.bind (remove_index_read_sat hr1 hi) ?_
       intro p s2 ⟨g1, g2, g3, g4⟩
       subst g1
-      refine Sat.cb (CbOk.unwindWith (dropV_cb E l[i].2) (dropK_cb l[i].1)) ?_ ?_
+      refine Sat.cb (CbOk.unwindWith (leak_cb (.v l[i].2)) (dropK_cb l[i].1)) ?_ ?_
       · intro _ s3 k1 k2 _
         exact Sat.pure ⟨by rw [k1, g3, h1], Or.inr ⟨i, hi, rfl, k1 ▸ g2,
           by simpa using (h2.trans g4).trans k2, fun hp => (h4 hp).symm⟩, fun hp => by rw [← h4 hp]; rfl⟩
@@ -255,7 +255,7 @@ theorem checked_insert_sat {s : St K V Q} {l : List (K × V)} (hr : Rep s.r l) (
       obtain ⟨hcap, hw, hcase⟩ := h
       rcases hcase with ⟨hi, hold, hrep, hfind⟩ | ⟨_, hold, _, hrep, hfind⟩
       · subst hold
-        refine Sat.cb (dropReturnedKey_cb E _) ?_ ?_
+        refine Sat.cb (dropReturnedKey_cb _) ?_ ?_
         · intro r s2 g1 g2 g3
           refine Sat.pure ⟨by rw [g1, hcap], Or.inl ⟨i, hi, by simpa using g3, g1 ▸ hrep,
             by simpa using hw.trans g2, hfind⟩⟩
@@ -274,7 +274,7 @@ theorem checked_insert_sat {s : St K V Q} {l : List (K × V)} (hr : Rep s.r l) (
       · subst hres
         simp only [Bool.false_eq_true, if_false]
         simp only [Bool.false_eq_true, if_false] at hrep
-        refine Sat.cb (dropReturnedKey_cb E _) ?_ ?_
+        refine Sat.cb (dropReturnedKey_cb _) ?_ ?_
         · intro r s2 g1 g2 g3
           refine Sat.pure ⟨by rw [g1, hcap], Or.inl ⟨i, hi, by simpa using g3, g1 ▸ hrep,
             by simpa using hw.trans g2, hfind⟩⟩
